@@ -50,6 +50,7 @@ func Module(rt *rapid.T, cfg Cfg) (*am.Module, map[string]int) {
 			g.funcDef(f)
 		}
 	}
+	g.funcletFunc()
 	g.blockAddrGlobal()
 	g.gepGlobals()
 	g.useListOrders()
@@ -914,6 +915,7 @@ doneBA:
 					count(a)
 				}
 				count(in.Callee)
+				count(in.ParentPad)
 				for _, inc := range in.Incs {
 					count(inc.V)
 				}
@@ -979,4 +981,103 @@ func (g *G) blockAddressTaken(b *am.Block) bool {
 		}
 	}
 	return taken
+}
+
+// funcletFunc adds a function built from a Windows-EH (funclet) skeleton: invoke → catchswitch with
+// one or two catchpads, catchret, an optional nested cleanuppad reached from an invoke inside a
+// handler, and a cleanuppad with cleanupret to the caller or to another pad.
+func (g *G) funcletFunc() {
+	if g.off("funclet") || !g.chance("funclet", 1, 4) {
+		return
+	}
+	m := g.M
+	var pers *am.Fun
+	for _, x := range m.Funcs {
+		if x.Name == "__CxxFrameHandler3" {
+			pers = x
+		}
+	}
+	if pers == nil {
+		pers = &am.Fun{Name: "__CxxFrameHandler3", Ret: am.I32, Variadic: true, Decl: true}
+		g.used[pers.Name] = true
+		m.Funcs = append(m.Funcs, pers)
+	}
+	callee := g.declareHelper()
+	f := &am.Fun{Name: g.globalName("funclet"), Ret: am.TVoid, Personality: &am.Const{K: am.CGlobal, T: pers.PtrType(), Ref: pers}}
+	g.localN = 2000
+	blk := func(prefix string) *am.Block {
+		b := &am.Block{Func: f, Index: len(f.Blocks), Name: g.localName(prefix)}
+		f.Blocks = append(f.Blocks, b)
+		return b
+	}
+	entry, cs, h1, ok, cl := blk("entry"), blk("cs"), blk("h"), blk("ok"), blk("cl")
+	if entry.Name == "" && g.chance("entryunnamed", 1, 2) {
+		entry.Name = ""
+	}
+	fnv := &am.Value{K: am.VConst, C: &am.Const{K: am.CGlobal, T: callee.PtrType(), Ref: callee}}
+	none := &am.Value{K: am.VConst, C: &am.Const{K: am.CNone, T: am.TToken}}
+	inv := func(norm, unw *am.Block, pad *am.Inst) *am.Inst {
+		t := &am.Inst{Op: "invoke", Callee: fnv, FnT: callee.FuncType(), T: am.TVoid, Targets: []*am.Block{norm, unw}}
+		if pad != nil {
+			t.Bundles = []*am.Bundle{{Tag: "funclet", Args: []*am.Value{{K: am.VInst, I: pad}}}}
+		}
+		return t
+	}
+	entry.Term = inv(ok, cs, nil)
+	csw := &am.Inst{Op: "catchswitch", T: am.TToken, Name: g.localName("cs"), ParentPad: none, Handlers: []*am.Block{h1}}
+	toCaller := g.chance("cs-to-caller", 1, 2)
+	if toCaller {
+		csw.UnwindToCaller = true
+	} else {
+		csw.Targets = []*am.Block{cl}
+	}
+	cs.Term = csw
+	cp := &am.Inst{Op: "catchpad", T: am.TToken, Name: g.localName("cp"), ParentPad: &am.Value{K: am.VInst, I: csw}}
+	if g.chance("cpargs", 1, 2) {
+		cp.Args = []*am.Value{{K: am.VConst, C: &am.Const{K: am.CNull, T: am.P(am.I8)}}, {K: am.VConst, C: &am.Const{K: am.CInt, T: am.I32, Int: big.NewInt(64)}}, {K: am.VConst, C: &am.Const{K: am.CNull, T: am.P(am.I8)}}}
+	}
+	h1.Insts = append(h1.Insts, cp)
+	if g.chance("nested", 1, 2) {
+		// invoke inside the handler, unwinding to a nested cleanup pad
+		h1ok, cl2 := blk("hok"), blk("cl2")
+		h1.Term = inv(h1ok, cl2, cp)
+		h1ok.Term = &am.Inst{Op: "catchret", Args: []*am.Value{{K: am.VInst, I: cp}}, Targets: []*am.Block{ok}}
+		p2 := &am.Inst{Op: "cleanuppad", T: am.TToken, Name: g.localName("p"), ParentPad: &am.Value{K: am.VInst, I: cp}}
+		cl2.Insts = append(cl2.Insts, p2)
+		cr := &am.Inst{Op: "cleanupret", Args: []*am.Value{{K: am.VInst, I: p2}}}
+		if toCaller {
+			cr.UnwindToCaller = true
+		} else {
+			cr.Targets = []*am.Block{cl}
+		}
+		cl2.Term = cr
+	} else {
+		h1.Term = &am.Inst{Op: "catchret", Args: []*am.Value{{K: am.VInst, I: cp}}, Targets: []*am.Block{ok}}
+	}
+	if g.chance("secondhandler", 1, 2) {
+		h2 := blk("h2")
+		csw.Handlers = append(csw.Handlers, h2)
+		cp2 := &am.Inst{Op: "catchpad", T: am.TToken, Name: g.localName("cp"), ParentPad: &am.Value{K: am.VInst, I: csw}}
+		h2.Insts = append(h2.Insts, cp2)
+		h2.Term = &am.Inst{Op: "catchret", Args: []*am.Value{{K: am.VInst, I: cp2}}, Targets: []*am.Block{ok}}
+	}
+	ok.Term = &am.Inst{Op: "ret"}
+	p := &am.Inst{Op: "cleanuppad", T: am.TToken, Name: g.localName("p"), ParentPad: none}
+	if g.chance("padargs", 1, 2) {
+		p.Args = []*am.Value{{K: am.VConst, C: &am.Const{K: am.CInt, T: am.I32, Int: big.NewInt(1)}}}
+	}
+	cl.Insts = append(cl.Insts, p)
+	if toCaller {
+		// cl is not a successor of the catchswitch: reach it from an invoke in the ok path instead
+		ok2 := blk("ok2")
+		ok.Term = inv(ok2, cl, nil)
+		ok2.Term = &am.Inst{Op: "ret"}
+	}
+	cl.Term = &am.Inst{Op: "cleanupret", Args: []*am.Value{{K: am.VInst, I: p}}, UnwindToCaller: true}
+	m.Funcs = append(m.Funcs, f)
+	g.feat("term/catchswitch")
+	g.feat("inst/catchpad")
+	g.feat("inst/cleanuppad")
+	g.feat("term/catchret")
+	g.feat("term/cleanupret")
 }
